@@ -174,14 +174,18 @@ func (s *genState) genProblem(req M) {
 	}
 	na := g.Int(minA, maxA)
 	cp := g.Perm(5)
-	ap := g.Perm(9)
+	pool := 9
+	if maxA+2 > pool {
+		pool = maxA + 2
+	}
+	ap := g.Perm(pool)
 	s.critIds = nil
 	for i := 0; i < nc; i++ {
 		s.critIds = append(s.critIds, fmt.Sprintf("c%d", cp[i]+1))
 	}
 	s.altIds = nil
 	for i := 0; i < na; i++ {
-		s.altIds = append(s.altIds, fmt.Sprintf("a%d", ap[i]+1))
+		s.altIds = append(s.altIds, fmt.Sprintf("a%02d", ap[i]+1))
 	}
 	mode := o.ValueMode
 	if mode < 0 {
